@@ -85,10 +85,14 @@ def one(ctx, rng, P, use_strace):
     total = sum(map(len, A.values())) + sum(map(len, B.values()))
     snapA, snapB = zp.snapshot(ra), zp.snapshot(rb)
     pf = os.path.join(base, "created.patch")
+    # the directory arguments are given with or without a trailing slash
+    slash = rng.choice(["", "", "/"])
+    arg_a, arg_b = ra + slash, rb + rng.choice(["", "/"]) if slash else rb
+    ctx.stats.classes["dir-arg:%s" % ("trailing-slash" if slash else "plain")] += 1
     if use_strace and shutil.which("strace"):
         log = ctx.path("strace.log")
         p = subprocess.run(["strace", "-f", "-y", "-o", log, "-e", "trace=openat,open,creat,unlink,unlinkat,mkdir,mkdirat,rename,renameat,renameat2,ftruncate,truncate,rmdir",
-                            build(ctx.variant), "--once", "zp.create", ra, rb, pf], stdout=subprocess.PIPE, stderr=subprocess.PIPE, text=True, timeout=120, env=dict(os.environ, VERIF_NO_WARM="1"))
+                            build(ctx.variant), "--once", "zp.create", arg_a, arg_b, pf], stdout=subprocess.PIPE, stderr=subprocess.PIPE, text=True, timeout=120, env=dict(os.environ, VERIF_NO_WARM="1"))
         ok = '"outcome":"ok"' in p.stdout
         bad = []
         n = 0
@@ -113,7 +117,7 @@ def one(ctx, rng, P, use_strace):
             ctx.violation("create", dict(sub="create_failed"), dict(stdout=p.stdout[-400:]), files=[ra, rb])
             return
     else:
-        rec = ctx.call("zp.create", ra, rb, pf, input_bytes=total)
+        rec = ctx.call("zp.create", arg_a, arg_b, pf, input_bytes=total)
         ctx.check_mon(rec, total, files=[ra, rb])
         if not rec.ok:
             if rec.outcome == "none":
@@ -123,7 +127,7 @@ def one(ctx, rng, P, use_strace):
         ctx.violation("create", dict(sub="create_modified_inputs"), dict(a_changed=zp.snapshot(ra) != snapA, b_changed=zp.snapshot(rb) != snapB), files=[ra, rb])
     shutil.copytree(ra, rw)
     psize = os.path.getsize(pf)
-    r2 = ctx.call("zp.apply", rw, pf, input_bytes=psize)
+    r2 = ctx.call("zp.apply", rw + rng.choice(["", "", "/"]), pf, input_bytes=psize)
     ctx.check_mon(r2, psize + total, files=[ra, rb, pf])
     if r2.outcome.startswith("err"):
         ctx.violation("create", dict(sub="created_patch_does_not_apply", err=r2.outcome), {}, files=[ra, rb, pf])
